@@ -395,4 +395,32 @@ fn main() {
         }
         show("S29", &build().encode());
     });
+    run("S30 side effects: index space of the code bodies in probe records (C23)", || {
+        use wirm::ir::module::side_effects::{InjectType, Injection};
+        // local functions $a (FunctionID 0) and $b (FunctionID 1); an imported function is added (both move up by one in the encoded module);
+        // probes that call $a are put into $b: before instruction 0, at function entry, and as block-entry of a block.
+        // expected: every record body says `call 1` (= $a in the encoded module), like the encoded code
+        let w = wat::parse_str(r#"(module (func $a) (func $b block nop end))"#).unwrap();
+        let mut m = Module::parse(&w, false).unwrap();
+        let ty = m.types.add_func_type(&[], &[], None);
+        m.add_import_func("env".into(), "imp".into(), ty);
+        {
+            let mut fm = m.functions.get_fn_modifier(FunctionID(1)).unwrap();
+            fm.before_at(wirm::ir::types::Location::Module { func_idx: FunctionID(1), instr_idx: 1 });
+            fm.call(FunctionID(0));
+            fm.finish_instr();
+            fm.func_entry();
+            fm.call(FunctionID(0));
+            fm.finish_instr();
+            fm.inject_at(0, InstrumentationMode::BlockEntry, wasmparser::Operator::Call { function_index: 0 });
+        }
+        let se = m.pull_side_effects();
+        for r in se.get(&InjectType::Probe).map(|v| v.as_slice()).unwrap_or(&[]) {
+            match r {
+                Injection::FuncProbe { target_fid, mode, body, .. } => println!("FuncProbe target_fid {} mode {:?} body {:?}", target_fid, mode, body),
+                Injection::FuncLocProbe { target_fid, target_opcode_idx, mode, body, .. } => println!("FuncLocProbe target_fid {} at {} mode {:?} body {:?}", target_fid, target_opcode_idx, mode, body),
+                _ => {}
+            }
+        }
+    });
 }
